@@ -16,8 +16,32 @@ def run(ctx):
     ctx.design("MC_Crash", "MC_Crash.cfg", label="crash-safe", workers=2)
     ctx.negative_control("MC_Crash", ctx.cfg_variant("MC_Crash.cfg", dict(HeaderFirst="TRUE")), label="neg:HeaderFirst", workers=2)
     tr = os.path.join(ctx.work, "crash.ndjson")
-    ctx.record("record-crash", ["-seed", str(ctx.seed), "-values", "0,1,2,5,999,1000,1001,1999,2000,2001,2500,3001,4500" if thorough else "0,5,1000,1001,2500",
-                                "-updog", updog, "-kills", "80" if thorough else "8"], tr, timeout=3000)
+    args = ["record-crash", "-out", tr, "-seed", str(ctx.seed), "-values", "0,1,2,5,999,1000,1001,1999,2000,2001,2500,3001,4500" if thorough else "0,5,1000,1001,2500",
+            "-updog", updog, "-kills", "80" if thorough else "8"]
+    rc, out, err = ctx.drive(args, timeout=3000, env_extra={"VERIF_WORK": ctx.work})
+    if rc != 0:
+        # Opening a surviving file maps it into memory; a file cut off in the middle can kill the opening process with a memory
+        # fault that no recover() catches.  That is an observation about the code under test (the recorder only opens what the
+        # killed creator left behind), not a failure of the check: the trace ends with an event no action matches.
+        if any(m in err for m in ("unexpected fault address", "fatal error: fault", "SIGBUS", "signal SIGSEGV")) and os.path.exists(tr):
+            good = []
+            for line in open(tr, "rb").read().split(b"\n"):
+                if not line.strip():
+                    continue
+                try:
+                    json.loads(line)
+                except Exception:
+                    break
+                good.append(line)
+            with open(tr, "wb") as f:
+                f.write(b"".join(l + b"\n" for l in good))
+                f.write((json.dumps({"ev": "OpenerDied", "report": err[:1500]}) + "\n").encode())
+        else:
+            raise Broken("vdrive record-crash failed rc=%d:\n%s" % (rc, (out + err)[-3000:]))
+    n = sum(1 for _ in open(tr))
+    if n == 0:
+        raise Broken("vdrive record-crash recorded an empty trace")
+    ctx.cov["trace_events"] += n
     ctx.check_trace("Trace_Crash", "Trace_Crash.cfg", tr, "trace-crash", must_have=("Snap", "CrashOpen", "Kill", "Refused"), run_marker="Begin")
 
 
